@@ -74,7 +74,8 @@ def run_sim(binary, param_text, args, threads=1, timeout=120, trace=True, env=No
         e["CMAC_VERIF_TRACE"] = tr
     if env:
         e.update(env)
-    cmd = [binary, "--params", "run.param", "--threads", str(threads)] + list(args)
+    # --dirty: a tree with uncommitted changes must still run (the code refuses by default)
+    cmd = [binary, "--params", "run.param", "--threads", str(threads), "--dirty"] + list(args)
     timed_out = False
     try:
         p = subprocess.run(cmd, cwd=d, env=e, stdout=subprocess.PIPE, stderr=subprocess.STDOUT, text=True, timeout=timeout)
